@@ -2,5 +2,6 @@ SPECIFICATION Spec
 CONSTANTS
   Layouts <- LayoutsQuick
   MaxLoops = 3
-  FixEndIdx = TRUE
+  FixEndIdx = FALSE
+  FixPadding = FALSE
 INVARIANTS Served StartOK CountOK FramesOK
